@@ -10,7 +10,7 @@ CLAIMS = {
             "reference meaning, consuming every operand; (OPC-6/7) BoolExpr/IntExpr dunders, then/cond and "
             "count_true/fold_or/fold_and/alldifferent build trees whose reference denotation equals the Python "
             "meaning of the call; (Z3M) both integer bounds are asserted for every IntVar, the model is read back "
-            "into sol for every variable, False only on unsat; (VID) variable ids equal list positions in every "
+            "into sol for every variable, False only on unsat; find_answer hands every variable and constraint to a fresh backend and returns its verdict for 0/1/2 variables x 0/1/3 constraints; (VID) variable ids equal list positions in every "
             "history (VID-4) expression trees are immutable: op/operands stored only by Expr.__init__, no in-place mutation of an operands list anywhere, no in-place operator dunder returning self. Every arity an operator's meaning allows is translated (up to 3), and 13 nested trees are translated and compared with their meaning."
         ),
         note="Trusted: z3 itself and its coercion of Python literals; the E8 evaluator and the reference table REF in sa/rules/exprmodel.py.",
@@ -43,7 +43,7 @@ CLAIMS = {
             "literals and mis-shaped arrays must be rejected (NotImplemented from dunders, an exception elsewhere); "
             "(OPC-5) is_bool_op, is_int_op, _make_bool_expr, _make_int_expr and _elementwise accept exactly each operator's "
             "reference signature (all kind vectors up to arity 3); (OPC-7/AGG) count_true, fold_or, fold_and, alldifferent "
-            "on every mix of literals, expressions, arrays and nestings up to 3 items incl. empty forms; conv2d windows and "
+            "on every mix of literals, expressions, arrays and nestings up to 3 items incl. empty forms, and over arrays of every shape with axis lengths 0..3 (function and method forms); conv2d windows and "
             "shapes; four_neighbors = in-bounds orthogonal neighbours with sibling order agreement."
         ),
         note="Trusted: the abstract evaluator and the reference table REF; the element kernel is uniform in the element index (two-element arrays) and conv2d/four_neighbors are judged on arrays up to 3x3/2x4.",
@@ -196,7 +196,7 @@ CLAIMS = {
             "is the cell removed; (SEG-E) abstract evaluation on 9 board/bound configurations x 3 draw scripts: from initial(), "
             "all proposed updates are applied breadth-first over the reachable values (state budget): every value is a partition "
             "of the board into orthogonally connected blocks within all bounds, and neither candidates() nor copy_with_update "
-            "modifies the value it was applied to; (RNG-1) segmentation.py uses no ambient randomness; (SEG-S) split_block, for every connected block of at most 5 (thorough: 6) cells in a 3x3 board and every ordered pair of distinct seeds, returns two non-empty orthogonally connected parts that partition the block. Unmeetable bounds: initial() may give up by raising, never by returning a partition outside the bounds."
+            "modifies the value it was applied to; (RNG-1) segmentation.py uses no ambient randomness; (SEG-S) split_block, for every connected block of at most 5 (thorough: 6) cells in a 3x3 board and every ordered pair of distinct seeds, returns two non-empty orthogonally connected parts that partition the block; (SEG-C) the donor-connectivity helper answers, for every connected block inside 3x3 / 2x4 / 1x4 boards, every removed cell and both listing orders, exactly whether the rest is orthogonally connected. Unmeetable bounds: initial() may give up by raising, never by returning a partition outside the bounds."
         ),
         note="Trusted: abstract evaluator, guard walker and Fourier-Motzkin prover. Boards up to 3x3 and three draw scripts stand for all boards/seeds in SEG-E; allow_unmet_constraints_first is the caller's choice and not evaluated.",
         technique="static analysis: guard-fact linear entailment at update sites + bounded abstract evaluation of update histories (ast)",
@@ -204,7 +204,7 @@ CLAIMS = {
     ),
     "C11": dict(
         text=(
-            "Decides structural necessary conditions of C11 for all 26 anchored solve_<puzzle> functions, not agreement with the "
+            "Decides structural necessary conditions of C11 for all 26 anchored solve_<puzzle> functions and the five solver modules the anchor list omits (firefly, magnets, nanro, nurimaze, slalom), not agreement with the "
             "published rules: each solver is evaluated abstractly (constraints are built as trees, Solver.solve replaced by a "
             "token) on non-square boards in both orientations (2x3, 3x2, 3x4, 4x3; n=2..4 for square-only puzzles) with clues in "
             "every corner and on the last row/column and with zero-valued clues: (AKR) the returned flag is this function's "
@@ -212,15 +212,15 @@ CLAIMS = {
             "were registered as answer keys before solve(), derived expressions are never returned; (IDX-1) no computed index or "
             "slice bound is negative at any subscript (a silent wrap to the far edge: the 'clue in the first row/column' failure); "
             "(IDX-2 / DK) nothing raises: out-of-range subscripts and shape mismatches from exchanged height/width roles surface "
-            "on at least one orientation. (PZ-X) For twenty-five puzzles whose published rules fit in a few lines (heyawake, akari, "
+            "on at least one orientation. (PZ-X) For thirty puzzles whose published rules fit in a few lines (simpleloop on instances whose pivot entry is consistent, magnets, nanro, nurimaze, slalom, heyawake, akari, "
             "nurikabe, norinori, yinyang, creek, star_battle, slitherlink, masyu, gokigen, aquarium, yajilin, putteria, fillomino, lits, building, doppelblock, compass, geradeweg, view, fivecells, nurimisaki, castle_wall, shakashaka; "
             "sudoku of order 2 and 3 through constraint-wise soundness plus pairwise refutation) the constraints the solver posts "
-            "on tiny instances (three stacked rooms, clues on edges, 1xN boards, non-convex tanks) are decided for EVERY assignment "
+            "on tiny instances (three stacked rooms, clues on edges, 1xN boards, non-convex tanks, rooms whose cells are listed backwards) are decided for EVERY assignment "
             "of the answer variables (three-valued backtracking over the auxiliary variables; graph constraints posted as the native "
             "operators, whose meaning C04-C07 tie to the rank encodings) and the admitted answers must equal the grids that obey the "
             "rules as transcribed in sa/rules/pzx.py; with C02 this gives the property's statement on those instances."
         ),
-        note="Trusted: the abstract evaluator; the fixture recipes in sa/rules/c11.py (problem formats read from each module); the rule transcriptions in sa/rules/pzx.py. For solve_simpleloop (outside PZ-X), and for boards larger than 13 answer variables, what is constrained is not compared with the puzzle's rules.",
+        note="Trusted: the abstract evaluator; the fixture recipes in sa/rules/c11.py (problem formats read from each module); the rule transcriptions in sa/rules/pzx.py. For solve_firefly (outside PZ-X), and for boards larger than 13 answer variables, what is constrained is not compared with the puzzle's rules. In the PZ-X world active_vertices_connected(acyclic=True) and the graph form of division_connected_variable_groups are replaced by definitional stand-ins (their rank encodings are what C04 / C07 decide).",
         technique="static analysis: abstract evaluation of constraint construction with strict index tracking and answer-key typestate (ast)",
         ref="DESIGN.md §3 C11",
     ),
@@ -229,7 +229,7 @@ CLAIMS = {
             "Decides C04 relative to a reference schema: active_vertices_connected (acyclic off/on) is evaluated abstractly on eleven "
             "small graphs (single vertex, edge, edge plus isolated vertex, path, triangle, star with isolated vertex, square, two components, "
             "parallel edges, triangle plus isolated vertex, parallel edges plus isolated vertex), with the activity flags given as variables, "
-            "with Python constants among them and as negated variables; "
+            "with Python constants among them and as negated variables; every explicit Graph is looked at (all its properties and argument-less methods evaluated) before its last edge is added, so a value cached on the object would be stale; "
             "the constraint trees it posts are canonicalised (commutativity, comparison direction, negation, count/threshold normal "
             "forms; rank domains compared by sufficiency >= n) and must equal the reference rank/root schema written in the checker "
             "(each active vertex has >=1 [==1 when acyclic, with distinct neighbour ranks] active strictly-lower neighbour or is "
@@ -296,7 +296,7 @@ CLAIMS = {
             "neighbour, downstream-size accounting with +1, roots' downstream = total, totals pinned to the requested sizes; border "
             "flag <=> different ids; resp. one graph-division operator with the documented layout) and the group-id array must be "
             "the one returned. Deviations are triaged by enumerating the projection onto the group ids / border flags against the "
-            "set of valid partitions (VIOLATION with witness, else undecided). (ALG-4D) grid form on four boards: each border "
+            "set of valid partitions (VIOLATION with witness, else undecided; on six-cell boards partition by partition). The grid forms (shape=, shape + constant size, 2-D size table) are compared with the reference schema on the row-major grid graph of 2x3, 3x2, 1x3 and 2x2 boards. (ALG-4D) grid form on four boards: each border "
             "variable of the inner frame is attached to the edge between the two cells it separates, sizes row-major; plus native "
             "gating (CFG-4) and operand layout/length guards (SGR-6)."
         ),
